@@ -267,15 +267,46 @@ func oracleCLI(c CLICase) error {
 			}
 			return nil
 		}
-		if of := flagValue(c.Flags, "--output-format"); c.Cmd == "validate" && c.Mode == "stdin" && (of == "json" || of == "sarif") {
-			// the report of a stdin run is well-formed and names the input, not a scratch file of the command
+		if of := flagValue(c.Flags, "--output-format"); c.Cmd == "validate" && (of == "json" || of == "sarif") {
+			// the report of a run on text given directly is well-formed and names the input, not a scratch file of the command
 			var v interface{}
 			if err := json.Unmarshal([]byte(r.stdout), &v); err != nil {
-				return fmt.Errorf("gosqlx validate %s on stdin: the %s report is not well-formed JSON: %v\n %s", strings.Join(c.Flags, " "), of, err, clip(r.stdout))
+				return fmt.Errorf("gosqlx validate %s with the text %q given on %s: the %s report is not well-formed JSON: %v\n %s", strings.Join(c.Flags, " "), clip(f.Content), c.Mode, of, err, clip(r.stdout))
 			}
 			if strings.Contains(r.stdout, "gosqlx-stdin") || strings.Contains(r.stdout, os.TempDir()+"/") {
-				return fmt.Errorf("gosqlx validate %s on stdin: the %s report names a temporary file instead of the input: %s", strings.Join(c.Flags, " "), of, clip(r.stdout))
+				return fmt.Errorf("gosqlx validate %s on %s: the %s report names a temporary file instead of the input: %s", strings.Join(c.Flags, " "), c.Mode, of, clip(r.stdout))
 			}
+		}
+		if c.Cmd == "format" && has(c.Flags, "--check") {
+			// the verdict of --check on a text given directly: 0 exactly when the text is what format prints for it
+			if !ok {
+				if r.code == 0 {
+					return fmt.Errorf("gosqlx format %s with the rejected text %q given on %s exits 0", strings.Join(c.Flags, " "), clip(f.Content), c.Mode)
+				}
+				return nil
+			}
+			var plain []string
+			for _, fl := range c.Flags {
+				if fl != "--check" {
+					plain = append(plain, fl)
+				}
+			}
+			pargs := append([]string{"format"}, plain...)
+			pstdin := ""
+			if c.Mode == "inline" {
+				pargs = append(pargs, f.Content)
+			} else {
+				pstdin = f.Content
+			}
+			pr, err := runCmd(dir, pstdin, binPath, pargs...)
+			if err != nil {
+				return fmt.Errorf("HARNESS: %v", err)
+			}
+			formatted := f.Content == pr.stdout || f.Content+"\n" == pr.stdout
+			if (r.code == 0) != formatted {
+				return fmt.Errorf("gosqlx format %s with the text %q given on %s exits %d, but without --check the same run prints %q", strings.Join(c.Flags, " "), clip(f.Content), c.Mode, r.code, clip(pr.stdout))
+			}
+			return nil
 		}
 		if (r.code == 0) != ok {
 			return fmt.Errorf("gosqlx %s %s with the text %q given on %s exits with status %d, but the library %s it\n stderr: %s", c.Cmd, strings.Join(c.Flags, " "), clip(f.Content), c.Mode, r.code,
@@ -614,7 +645,11 @@ func TestCLIVerdict(t *testing.T) {
 			var keep []string
 			for i := 0; i < len(c.Flags); i++ { // flags that only make sense with files are dropped
 				switch c.Flags[i] {
-				case "-i", "--check":
+				case "-i":
+				case "--check":
+					if c.Cmd == "format" && !has(c.Flags, "-i") {
+						keep = append(keep, "--check") // the check-only verdict applies to a text given directly too
+					}
 				case "--output-file":
 					i++
 				default:
